@@ -180,7 +180,7 @@ def _c12(seed, quick):
 
 
 def _c13(seed, quick):
-    m, mb = (20, 40) if quick else (500, 420)
+    m, mb = (400, 40) if quick else (40000, 420)
     return {
         "shards": conc_shards("C13", seed, "shutdown", m, mb),
         "rule": "2-16 writer threads in tight loops, 1-3 threads calling shutdown() at random points (also concurrently), command_buffer_size in {1,2,8}, seeded "
